@@ -233,6 +233,18 @@ def oracle_a1_history(ctx: Ctx, ops: list):
                 t.delete_column(op[1], op[2])
             elif op[0] == "M":
                 t.merge_cells(op[1])
+            elif op[0] == "B":
+                # a border drawn at a position (A1 or row/column form) is reported by the cell found at that position
+                from numbers_parser import RGB, Border
+                pos = (a1(op[1], op[2]),) if op[3] else (op[1], op[2])
+                cell = t.cell(op[1], op[2])
+                plain = type(cell).__name__ != "MergedCell" and not cell.is_merged
+                t.set_cell_border(*pos, "top", Border(2.0, RGB(9, 9, 9), "solid"))
+                got = t.cell(op[1], op[2]).border.top
+                if plain and (got is None or got.width != 2.0):
+                    ctx.oracle_fail("border-not-on-addressed-cell", dict(case, upto=k, pos=[op[1], op[2]]),
+                                    f"after {ops[:k]}: set_cell_border{pos} was accepted but cell({op[1]},{op[2]}).border.top is {got!r}")
+                    return
         except (IndexError, ValueError):
             pass      # a refused edit changes nothing; the sweep below still has to agree
         if not sweep(k):
@@ -268,6 +280,8 @@ def gen_a1_history(rng):
         else:
             r, c = rng.randrange(nr - 1), rng.randrange(nc - 1)
             ops.append(["M", f"{a1(r, c)}:{a1(r + 1, c + rng.randrange(2))}"])
+        if rng.random() < 0.35:
+            ops.append(["B", rng.randrange(nr), rng.randrange(nc), rng.randrange(2)])
     return ops
 
 
@@ -375,7 +389,8 @@ def run(ctx: Ctx) -> int:
             ctx.nontrivial(("iter", nr, nc, a, b, c, dd))
     ctx.dist("oracle_positions", n_pos)
     # histories on ONE table, every position read in both forms after every edit
-    hs = [[["AR", 1, 1]], [["DC", 1, 0]], [["M", "B2:C3"]], [["DR", 1, 0], ["AC", 1, 0]], [["W", 5, 4, 1], ["DR", 1, None]]]
+    hs = [[["AR", 1, 1]], [["DC", 1, 0]], [["M", "B2:C3"]], [["DR", 1, 0], ["AC", 1, 0]], [["W", 5, 4, 1], ["DR", 1, None]],
+          [["DR", 1, None], ["W", 4, 1, 5], ["B", 4, 1, 1], ["B", 4, 2, 0], ["B", 3, 0, 1]], [["DC", 1, None], ["W", 1, 4, 5], ["B", 1, 4, 0]]]
     hs += [gen_a1_history(rng) for _ in range(25 if ctx.quick else 300)]
     for h in hs:
         oracle_a1_history(ctx, h)
